@@ -10,6 +10,10 @@ package main
 //	(`xcall`, except log), socket calls (`io`: net, bufio), and the control flow that orders them
 //	(for, if, switch, return, break, continue, panic).
 //
+// Operands are printed alpha-normalised (receiver _r, parameters _p0, _p1, … by position, locals _v0, _v1, … by
+// order of declaration within the function), so renaming a receiver, a parameter or a local changes nothing;
+// fields, methods, functions, constants and packages print under their own names.
+//
 // The hand-written LTS models were built from these lists; `./check` diffs the re-extracted skeleton
 // with the committed one (`expected/skeletons/<name>.txt`, listed in conf `"skeletons"`), so a reordered
 // close/CAS, a removed `default`, a lock that no longer covers a region, or a changed loop shape is
@@ -604,13 +608,22 @@ func skeletonOf(repo, relFile string) (string, error) {
 			name = "(" + w.src(fd.Recv.List[0].Type) + ") " + name
 		}
 		root := &skItem{text: "func " + name, keep: true}
+		// the body is walked and printed in its alpha-normalised form (`normalise`, c07.go): every operand prints
+		// the receiver as _r, the parameters as _p0, _p1, … by position and the locals as _v0, _v1, … by order of
+		// declaration among the locals this function's skeleton mentions (`renumberDecl`, c11.go); fields, methods,
+		// functions, constants and packages keep their names. The ops are classified by go/types objects, which hang
+		// on the identifier nodes, not on their names, so the rewrite changes the operands' spelling only.
+		restore := (&Pkg{Fset: p.fset, Info: p.info}).normalise(fd)
 		w.block(root, fd.Body)
+		restore()
 		if hasOp(&skItem{kids: root.kids}) {
 			filterItems(root)
 		} else {
 			root.kids = nil
 		}
-		root.render(&sb, 0)
+		var fb strings.Builder
+		root.render(&fb, 0)
+		sb.WriteString(renumberDecl(fb.String()))
 	}
 	return sb.String(), nil
 }
